@@ -160,7 +160,10 @@ pub open spec fn classified(m: MidParseResult, r: ParseResult<Narsese>) -> bool 
         (Some(t), Some(p), Some(b)) => r matches Ok(NarseseValue::Task(k)) && k.1 == b
             && sentence_term(k.0) == t && sentence_punctuation(k.0) == p,
         (Some(t), Some(p), None) => r matches Ok(NarseseValue::Sentence(s))
-            && sentence_term(s) == t && sentence_punctuation(s) == p,
+            && sentence_term(s) == t && sentence_punctuation(s) == p
+            // absent stamp / truth default to eternal / the empty truth
+            && (m.stamp is None ==> sentence_stamp(s) == Stamp::Eternal) && (m.stamp matches Some(x) ==> sentence_stamp(s) == x)
+            && (m.truth is None ==> sentence_truth_empty(s)),
         (Some(t), None, _) => r == Ok::<Narsese, ParseError>(NarseseValue::Term(t)),
     }
 }
